@@ -415,6 +415,17 @@ _MORE8 = {
     "C14": "A goroutine that the watchdog's dump shows waiting for a lock inside rapid.(*T) for five minutes or more is reported as a deadlock (VIOLATION) even if the scenario finishes when run alone.",
     "C15": "In two rounds out of seven every test case constructs StringMatching/SliceOfBytesMatching generators for one expression text itself.",
 }
+_MORE9 = {
+    "C03": "Half of the Permutation leaves are drawn from directly (typed, inside a Custom function) so that rapid computes the generator's label itself; StringOfN over non-rune Int32 generators also has byte limits, and every rune of the result must be one the element generator can produce; RuneFrom lists with unencodable runes must stay unmodified.",
+    "C08": "A fifth step statistic under -short (-rapid.steps=40: mean 20 in every Repeat call, however many came before).",
+    "C09": "The fail-file family also runs with -rapid.checks=0 and with -short leaving no random test case (the files are replayed all the same); two skip patterns skip before the first draw.",
+    "C10": "A Repeat action registers a cleanup and then skips.",
+    "C13": "One tail run in sixteen appends more than 64 KiB of unconsumed bytes.",
+    "C14": "Half of the Errorf calls of the workers pass a slice that the worker overwrites as soon as Errorf has returned; the message must show the value at the call.",
+    "C17": "Every other of the 400 unusable entries of the many-empty-files child is a directory with the name of a fail file.",
+}
+for _k, _v in _MORE9.items():
+    _MORE8[_k] = _MORE8.get(_k, "") + " " + _v
 for _k, _v in _MORE8.items():
     _MORE7[_k] = _MORE7.get(_k, "") + " " + _v
 for _k, _v in _MORE7.items():
